@@ -429,7 +429,9 @@ class DriverLubaRs232(DriverSerialBase):
             Returns the state machine to "WAIT_START"
             """
             self.rx_state = self.ReadState.WAIT_START
-            self._buffer = [None] * self.MAX_LEN
+            # Room for the largest accepted payload (MAX_LEN - 1 bytes)
+            # plus start, command, length and checksum bytes
+            self._buffer = [None] * (self.MAX_LEN + 3)
             self._rx_expected_len = None
             self._rx_received_len = 0
 
